@@ -284,10 +284,14 @@ fn iface_by_name(s: &str) -> Option<Iface> {
 
 pub fn replay(case: &Value) -> Option<String> {
     let i = iface_by_name(case["iface"].as_str()?)?;
-    let p = Params::new(0);
+    let mut p = Params::new(0);
     let n = case["n"].as_u64()? as usize;
     let cuts: Vec<usize> = case["cuts"].as_array()?.iter().map(|c| c.as_u64().unwrap() as usize).collect();
-    let msg = message(0, n);
+    let mut msg = message(0, n);
+    if let (Some(k), Some(m)) = (case["key"].as_str(), case["msg"].as_str()) {
+        p.key32 = unhx(&json!(k)).try_into().ok()?;
+        msg = unhx(&json!(m));
+    }
     let one = oneshot(i, &p, &msg);
     match incremental(i, &p, &msg, &cuts) {
         Ok(v) if v == one.0 && v == one.1 => None,
@@ -462,6 +466,67 @@ pub fn run() -> i32 {
         g.states.extend(tr.states);
     });
     ctx.absorb("very-large-pieces", st);
+    // Poly1305 operands at the edges of the internal limbs: keys r in {1, 2, 2^44, clamped
+    // maximum, two seeded} x s in {0, 2^128-1}; messages = every sequence of 1..=4 blocks over
+    // {0, 2^44-1, 2^44, 2^88-1, 2^88, 2^128-1} (optionally + a 5-byte tail); every 2-way cut.
+    // A carry that is only lost when a call boundary falls on such an accumulator value shows
+    // up as incremental != one-shot.
+    {
+        let mut rs: Vec<[u8; 16]> = vec![1u128.to_le_bytes(), 2u128.to_le_bytes(), (1u128 << 44).to_le_bytes(), 0x0ffffffc0ffffffc0ffffffc0fffffffu128.to_le_bytes()];
+        for i in 2..4 {
+            let mut r: [u8; 16] = karr(seed ^ 0x1305, i);
+            r[3] &= 15;
+            r[7] &= 15;
+            r[11] &= 15;
+            r[15] &= 15;
+            r[4] &= 252;
+            r[8] &= 252;
+            r[12] &= 252;
+            rs.push(r);
+        }
+        let ssv: [[u8; 16]; 2] = [[0u8; 16], [0xffu8; 16]];
+        let blocks: Vec<[u8; 16]> = [0u128, (1 << 44) - 1, 1 << 44, (1 << 88) - 1, 1 << 88, u128::MAX].iter().map(|v| v.to_le_bytes()).collect();
+        let mut msgs: Vec<Vec<u8>> = vec![];
+        for nb in 1..=4usize {
+            for idx in 0..6usize.pow(nb as u32) {
+                let mut m = vec![];
+                let mut x = idx;
+                for _ in 0..nb {
+                    m.extend_from_slice(&blocks[x % 6]);
+                    x /= 6;
+                }
+                if nb <= 3 {
+                    let mut t = m.clone();
+                    t.extend_from_slice(&[0xff, 0, 0xff, 1, 0x80]);
+                    msgs.push(t);
+                }
+                msgs.push(m);
+            }
+        }
+        let units: Vec<(usize, usize)> = (0..rs.len()).flat_map(|r| (0..2).map(move |s| (r, s))).collect();
+        let st = par_units(&units, |&(ri, si), st| {
+            let mut pp = Params::new(seed);
+            pp.key32[..16].copy_from_slice(&rs[ri]);
+            pp.key32[16..].copy_from_slice(&ssv[si]);
+            for msg in &msgs {
+                for i in [Iface::OtaClassic, Iface::OtaObject] {
+                    let one = oneshot(i, &pp, msg);
+                    for cut in 0..=msg.len() {
+                        let r = incremental(i, &pp, msg, &[cut]);
+                        let ok = matches!(&r, Ok(v) if v == &one.0 && v == &one.1);
+                        st.evaluations += 1;
+                        *st.outcomes.entry(if ok { "incremental==oneshot".to_string() } else { "incremental-differs".to_string() }).or_insert(0) += 1;
+                        if !ok {
+                            st.fail(Fail { check: "C08.chunk".into(), signature: format!("C08/{:?}/limb-edge-operands", i), what: format!("{:?} with key {} on the {}-byte message {} cut at {}: incremental {:?} but one-shot gives dryoc {} / libsodium {}", i, hx(&pp.key32), msg.len(), hx(msg), cut, r.as_ref().map(|v| hx(v)), hx(&one.0), hx(&one.1)), case: json!({"iface": format!("{:?}", i), "n": msg.len(), "cuts": [cut], "key": hx(&pp.key32), "msg": hx(msg)}) });
+                        }
+                    }
+                }
+            }
+            st.distinct = st.evaluations;
+        });
+        ctx.note("poly1305_limb_edge_operands", json!({"keys": rs.len() * 2, "messages": msgs.len(), "cuts": "every offset"}));
+        ctx.absorb("poly1305-limb-edges", st);
+    }
     let g = tracker.lock().unwrap();
     ctx.total.states = g.states.len() as u64;
     ctx.total.transitions = g.transitions;
